@@ -106,8 +106,28 @@ HOSTILE = [
 ]
 
 
+def _many_stems():
+    """More than ten stems with knots (variable / region indices get two digits)."""
+    out = []
+    pairs, pos = [], 1
+    for h in range(10):  # ten hairpins
+        pairs += [(pos, pos + 5), (pos + 1, pos + 4)]
+        pos += 7
+    pairs += [(pos, pos + 8), (pos + 1, pos + 7), (pos + 1 + 3, pos + 13), (pos + 1 + 4, pos + 12)]  # H-type
+    out.append(("hairpins10+H-type", pos + 14, sorted(pairs)))
+    pairs, pos = [], 1
+    for h in range(6):  # six consecutive H-type knots, short stem first in every second one
+        a, b = (1, 3) if h % 2 else (3, 1)
+        s1 = [(pos + i, pos + 2 * a + b + 2 - i) for i in range(a)]
+        s2 = [(pos + a + 1 + i, pos + 2 * a + 2 * b + 4 - i) for i in range(b)]
+        pairs += s1 + s2
+        pos += 2 * a + 2 * b + 6
+    out.append(("six-H-types", pos, sorted(pairs)))
+    return out
+
+
 def hostile():
-    out = list(HOSTILE)
+    out = list(HOSTILE) + _many_stems()
     # ladders needing many levels
     for k in (5, 12, 30):
         pairs = [(i + 1, k + i + 1) for i in range(k)]
